@@ -107,3 +107,26 @@ def uint32_le(data, p):
 
 def uint64_le(data, p):
     return le_value(data, p, 8)
+
+
+def is_number(e, v):
+    """e is a NUMBER encoding of v (any legal length, docs/archive_format.rst table)"""
+    return And(L(e) >= 1, L(e) <= 9, L(e) == number_len(e, 0), number_value(e, 0) == v)
+
+
+def boolean_list_clauses(c, vec, bs, all_defined):
+    """vec is the BooleanList (all_defined=True: with the leading 'alldefined' byte) / bare BitField of bs"""
+    from pyvc.contract import ForAll
+    from pyvc.values import all_true_of
+
+    n = L(bs)
+    alltrue = all_true_of(c, bs)
+    short = And(all_defined, alltrue)
+    q0 = ite(all_defined, 1, 0)
+    return [
+        ("shortcut", Implies(short, And(L(vec) == 1, nth(vec, 0) == 1))),
+        ("flag-zero", Implies(And(all_defined, Not(alltrue)), nth(vec, 0) == 0)),
+        ("length", Implies(Not(short), L(vec) == q0 + ceil8(n))),
+        ("bit-k", ForAll(lambda k: Implies(And(Not(short), k >= 0, k < n), bit(vec, q0, k) == nth(bs, k)), over=bs, mod=8)),
+        ("padding-zero", ForAll(lambda k: Implies(And(Not(short), k >= n, k < 8 * ceil8(n)), Not(bit(vec, q0, k))), over=bs, trigger=False, mod=8)),
+    ]
